@@ -31,7 +31,7 @@ m = {
     "hooks": {
         "guard": "verif",
         "enable": "go build/test -tags verif (the driver adds the tag to every build of /repo packages)",
-        "baseline_off_cmd": "cd /repo && go test -vet=off -count=1 -timeout 25m ./... && cd plugins/contrib && go test -mod=mod -vet=off -count=1 -timeout 25m ./...",
+        "baseline_off_cmd": "for m in . plugins/contrib; do (cd /repo/$m && go test -vet=off -count=1 -timeout 25m ./...) || exit 1; done",
         "source_commits": hooks.get("source_commits", []),
         "add_only": True,
     },
